@@ -314,8 +314,16 @@ class LookupModel:
                 ok = True
                 self.probe("broken-content-raised")
         if not ok:
-            self.flag("wrong-exception", "%r (file %s, health %s): unexpected %s"
-                      % (uri, _tail(path), f.health, _short(outcome)))
+            detail = None
+            mp = self.module_path(uri)
+            rec = self.modfiles.get(mp) if mp is not None else None
+            if rec is not None and rec[2] != "ok" and BROKEN_EXC[rec[2]] in names and f.mtime >= rec[1] + 1:
+                # the module file left behind by an earlier failed load (its body raises when imported) is newer
+                # by file mtime than the corrected source, although it was generated >= 1 s before the correction
+                detail = "stale-broken-module"
+            self.flag("wrong-exception", "%r (file %s, health %s): unexpected %s%s"
+                      % (uri, _tail(path), f.health, _short(outcome),
+                         " -- raised by the stale module file stamped %.3f, source mtime %.3f" % (rec[1], f.mtime) if detail else ""), detail)
 
     def _resync(self, uri, outcome, seq):
         if outcome[0] == "served":
